@@ -5,6 +5,7 @@ import (
 	"math/big"
 	"reflect"
 	"strings"
+	"unicode"
 
 	mpc "github.com/markkurossi/mpc"
 	"github.com/markkurossi/mpc/circuit"
@@ -635,12 +636,38 @@ func c13Result(cs *vrt.Case, r *vrt.Rng) {
 		for i := range s {
 			s[i] = byte(r.Range(0x20, 0x7e))
 		}
+		// every byte value is a character of an MPCL string: NUL (also as the
+		// last and the first character, and in all-zero strings), control
+		// characters and bytes above 0x7f. mpc.Result renders a character as
+		// the Latin-1 rune when it is printable and as \uXXXX otherwise -
+		// injective for a given length, so distinct results stay distinct.
+		switch r.Intn(6) {
+		case 0:
+			for k := r.Range(1, n); k > 0; k-- {
+				s[n-k] = 0 // trailing NULs (the whole string when k = n)
+			}
+		case 1:
+			s[0] = 0
+			s[r.Intn(n)] = 0
+		case 2:
+			for i := range s {
+				if r.Intn(2) == 0 {
+					s[i] = byte(r.Intn(256))
+				}
+			}
+		}
 		arg = circuit.IOArg{Type: types.Info{Type: types.TString, IsConcrete: true, Bits: types.Size(8 * n)}}
 		enc = new(big.Int)
+		var sb strings.Builder
 		for i, c := range s {
 			enc.Or(enc, new(big.Int).Lsh(big.NewInt(int64(c)), uint(8*i)))
+			if unicode.IsPrint(rune(c)) {
+				sb.WriteRune(rune(c))
+			} else {
+				fmt.Fprintf(&sb, "\\u%04x", c)
+			}
 		}
-		want = string(s)
+		want = sb.String()
 	}
 	desc := map[string]any{"kind": "result", "type": arg.Type.String(), "enc": enc.Text(16)}
 	cs.SetSample(desc)
